@@ -16,6 +16,8 @@ import EaselModel.Alphabet.HistoryLemmas
 import EaselModel.Alphabet.Sq2Lemmas
 import EaselModel.Alphabet.IntScoreLemmas
 import EaselModel.Alphabet.Round4Lemmas
+import EaselModel.Alphabet.History2Lemmas
+import EaselModel.Alphabet.GuessCutoffLemmas
 /-! # C08 — property theorems (statements + glue only; lemmas live in Alphabet/*.lean)
 
 `G.dna`, `G.rna`, `G.amino`, `G.coins`, `G.dice` are the tables dumped from the code under check on this run
@@ -585,6 +587,22 @@ example : Guess.msaVote [Guess.guessZ (Guess.sqCount (str "ACGUACGUACGU") (List.
       Guess.guessZ (Guess.sqCount (str "ACDEFGHIKLMN") (List.replicate 26 0) 0)] = 0 ∧
     Guess.msaGuess Guess.guessZ [str "ACGUACGUACGU", str "ACDEFGHIKLMN"] = some (true, 3) := by decide +kernel
 
+/-- **the counting loop of `esl_sq_GuessAlphabet` (= the per-row loop and, by `msa_guess_spec`, the pooled loop of
+    `esl_msa_GuessAlphabet`) on EVERY 8-bit string** — no bound on the number of letters: counter `l` = occurrences (either
+    case) of letter `l` in the shortest prefix holding 10001 letters (`Guess.takeLetters`: the loop breaks after counting the
+    10001st letter), and the counters satisfy `Counts`; so `guess_spec` and the three guarantees apply to every sequence.
+    Discharges the `≤ 10000 letters` hypothesis of `sq_guess_counts`. -/
+theorem sq_guess_counts_all (seq : List Nat) (hb : ∀ c ∈ seq, c < 256) :
+    (∀ l, l < 26 → (Guess.sqCount seq (List.replicate 26 0) 0).getD l 0 =
+      (((Guess.takeLetters 10001 seq).filter fun c => Guess.isLetter c l).length : Int)) ∧
+    Guess.Counts (Guess.sqCount seq (List.replicate 26 0) 0) ∧
+    (∃ rest, seq = Guess.takeLetters 10001 seq ++ rest) ∧ Guess.nLetters (Guess.takeLetters 10001 seq) ≤ 10001 ∧
+    (Guess.nLetters seq ≤ 10000 → Guess.takeLetters 10001 seq = seq) :=
+  ⟨(Guess.sqCount_all seq hb).1, (Guess.sqCount_all seq hb).2, Guess.takeLetters_prefix 10001 seq,
+   Guess.nLetters_takeLetters 10001 seq, fun h => Guess.takeLetters_all 10001 seq (by omega)⟩
+
+example : Guess.takeLetters 3 (str "a-c.GT") = str "a-c.G" := by decide
+
 /-! ## round 4: integer scores — `esl_abc_IAvgScore` / `IExpectScore` round half away from zero -/
 
 /-- the closing `if (result < 0) return (int)(result - 0.5); else return (int)(result + 0.5);` over ℚ is rounding to the
@@ -695,6 +713,91 @@ theorem count_nondegenerate_codes (a : Alphabet) (hK : a.K + 4 ≤ a.Kp) (ct : L
     (x ≤ a.K → ct.length ≤ x → a.count ct x wt = none) ∧
     ((x = a.Kp - 2 ∨ x = a.Kp - 1) → a.count ct x wt = some ct) :=
   count_simple a hK ct wt x
+
+/-! ## round 4: more tables regenerated from the tree -/
+
+/-- the character-class macros `esl_abc_CIs*` on all 256 (signed) chars and `esl_abc_XIs*` on all 256 codes, and
+    `esl_abc_XGet{Gap,Unknown,Nonresidue,Missing}`, as evaluated by the code under check on this run for the five built-in
+    alphabets, are the model's `cClass` / `xClass` / `gap … missing` (these classes decide what text-mode
+    `esl_sq_CountResidues`, `esl_abc_ValidateSeq`, `esl_sq_Digitize`, `dsqrlen`, the dealigners and the counters skip) -/
+theorem char_classes_regenerated :
+    ((List.range 256).map G.dna.cClass = Generated.AlphabetsAux.cClass_dna ∧ (List.range 256).map G.dna.xClass = Generated.AlphabetsAux.xClass_dna ∧
+      [G.dna.gap, G.dna.unknown, G.dna.nonresidue, G.dna.missing] = Generated.AlphabetsAux.xGet_dna) ∧
+    ((List.range 256).map G.rna.cClass = Generated.AlphabetsAux.cClass_rna ∧ (List.range 256).map G.rna.xClass = Generated.AlphabetsAux.xClass_rna ∧
+      [G.rna.gap, G.rna.unknown, G.rna.nonresidue, G.rna.missing] = Generated.AlphabetsAux.xGet_rna) ∧
+    ((List.range 256).map G.amino.cClass = Generated.AlphabetsAux.cClass_amino ∧ (List.range 256).map G.amino.xClass = Generated.AlphabetsAux.xClass_amino ∧
+      [G.amino.gap, G.amino.unknown, G.amino.nonresidue, G.amino.missing] = Generated.AlphabetsAux.xGet_amino) ∧
+    ((List.range 256).map G.coins.cClass = Generated.AlphabetsAux.cClass_coins ∧ (List.range 256).map G.coins.xClass = Generated.AlphabetsAux.xClass_coins ∧
+      [G.coins.gap, G.coins.unknown, G.coins.nonresidue, G.coins.missing] = Generated.AlphabetsAux.xGet_coins) ∧
+    ((List.range 256).map G.dice.cClass = Generated.AlphabetsAux.cClass_dice ∧ (List.range 256).map G.dice.xClass = Generated.AlphabetsAux.xClass_dice ∧
+      [G.dice.gap, G.dice.unknown, G.dice.nonresidue, G.dice.missing] = Generated.AlphabetsAux.xGet_dice) := by
+  decide +kernel
+
+/-- the letter classes of `esl_abc_GuessAlphabet` read off the code: on 3 × 26 probe compositions (a DNA, an RNA and an empty
+    background plus a few copies of one letter) the code under check answered on this run what the integer model answers, and
+    with the DNA background the answer is amino exactly for the letters of `Guess.aaonly` (EFIJLOPQZ) -/
+theorem guess_probe_regenerated :
+    (List.range 78).map (fun i => Guess.guessZ (Guess.probe i)) = Generated.AlphabetsAux.guessProbe ∧
+    (∀ l, l < 26 → (Generated.AlphabetsAux.guessProbe.getD l 0 = 3 ↔ l ∈ Guess.aaonly)) := by
+  decide +kernel
+
+/-! ## round 4: custom alphabets — what a rejected call leaves behind, and the documented postcondition of each setter -/
+
+/-- **rejected calls**: a rejected `SetEquiv` changes nothing (`custom_create_setequiv_status`); a rejected `SetDegeneracy`
+    either changes nothing (the symbol is not a degenerate symbol `K < x < Kp-3`) or — the loop over `ds` stops at the first
+    character `d` that is not a canonical residue symbol — leaves the alphabet exactly as the ACCEPTED call with the prefix of
+    `ds` before `d` leaves it; a rejected `SetCaseInsensitive` (eslECORRUPT) leaves it as the accepted loop over the letters
+    before the offending one, whose two cases are valid with different codes. (The C code does not roll back; mirrored.) -/
+theorem custom_rejected_calls (a : Alphabet) (c : Nat) (ds : List Nat) :
+    ((a.setDegeneracy c ds).1 ≠ .ok →
+      (a.setDegeneracy c ds).2 = a ∨
+      ∃ pre d post, ds = pre ++ d :: post ∧ (∀ e ∈ pre, a.canonSym e) ∧ ¬ a.canonSym d ∧
+        (a.setDegeneracy c pre).1 = .ok ∧ (a.setDegeneracy c ds).2 = (a.setDegeneracy c pre).2) ∧
+    (a.setCaseInsensitive.1 ≠ .ok →
+      ∃ pre lc post, (List.range 26).map (· + 97) = pre ++ lc :: post ∧ (a.caseLoop pre).1 = .ok ∧
+        (a.caseLoop pre).2.caseStep lc = none ∧ a.setCaseInsensitive.2 = (a.caseLoop pre).2) :=
+  ⟨setDegeneracy_rejected a c ds, caseLoop_rejected _ a⟩
+
+/-- **postcondition of an accepted `SetDegeneracy(a, c, ds)`**: row `x` (the code of `c`, `K < x < Kp-3`) flags exactly its
+    old members and the residues listed in `ds`; `ndegen[x]` grew by `|ds|`; all other rows and counts, the input map, the
+    symbols and the sizes are unchanged -/
+theorem custom_setdegeneracy_post (a : Alphabet) (h : a.WFDegen) (c : Nat) (ds : List Nat) (hok : (a.setDegeneracy c ds).1 = .ok) :
+    ∃ x, a.strchrSym c = some x ∧ a.K < x ∧ x + 3 < a.Kp ∧
+      (∀ y, (((a.setDegeneracy c ds).2.degen.getD x []).getD y 0 ≠ 0 ↔
+        ((a.degen.getD x []).getD y 0 ≠ 0 ∨ y ∈ ds.filterMap a.strchrSym))) ∧
+      (a.setDegeneracy c ds).2.ndegen.getD x 0 = a.ndegen.getD x 0 + ds.length ∧
+      (∀ x', x' ≠ x → (a.setDegeneracy c ds).2.degen.getD x' [] = a.degen.getD x' [] ∧
+        (a.setDegeneracy c ds).2.ndegen.getD x' 0 = a.ndegen.getD x' 0) ∧
+      (a.setDegeneracy c ds).2.inmap = a.inmap ∧ (a.setDegeneracy c ds).2.sym = a.sym ∧
+      (a.setDegeneracy c ds).2.K = a.K ∧ (a.setDegeneracy c ds).2.Kp = a.Kp :=
+  setDegeneracy_post a h c ds hok
+
+/-- **postcondition of `SetIgnored(a, chars)`**: exactly the listed 7-bit characters map to `eslDSQ_IGNORED` (so digitising
+    skips them), every other entry of the input map and every other table is unchanged;
+    **of an accepted `SetCaseInsensitive(a)`**: for all 26 letters both cases are valid or both invalid and valid pairs share
+    their code; every character that was valid keeps its code; nothing but letters changes -/
+theorem custom_ignored_caseins_post (a : Alphabet) (hl : a.inmap.length = 128) (hk : a.Kp ≤ 250) (chars : List Nat) :
+    ((∀ c, c < 128 → (a.setIgnored chars).inmapAt c = if c ∈ chars then IGNORED else a.inmapAt c) ∧
+     (∀ c, c < 128 → c ∈ chars → (a.setIgnored chars).code c = none) ∧
+     (a.setIgnored chars).sym = a.sym ∧ (a.setIgnored chars).degen = a.degen ∧ (a.setIgnored chars).ndegen = a.ndegen) ∧
+    (a.setCaseInsensitive.1 = .ok →
+      (∀ lc, 97 ≤ lc → lc ≤ 122 → a.setCaseInsensitive.2.cIsValid lc = a.setCaseInsensitive.2.cIsValid (lc - 32) ∧
+        (a.setCaseInsensitive.2.cIsValid lc = true →
+          a.setCaseInsensitive.2.inmapAt lc = a.setCaseInsensitive.2.inmapAt (lc - 32))) ∧
+      (∀ c, a.cIsValid c = true → a.setCaseInsensitive.2.inmapAt c = a.inmapAt c) ∧
+      (∀ c, ¬ (97 ≤ c ∧ c ≤ 122) → ¬ (65 ≤ c ∧ c ≤ 90) → a.setCaseInsensitive.2.inmapAt c = a.inmapAt c)) :=
+  ⟨⟨(setIgnored_post a hl chars).1, fun c hc hm => setIgnored_code a hl hk chars c hc hm, rfl, rfl, rfl⟩,
+   fun hok => setCaseInsensitive_post a hl hok⟩
+
+/-- non-vacuity: on the demo alphabet "ACGT-N*~" with K=4 there is no degenerate symbol, so take "ACGT-RYN*~": `R` := "AG!" is
+    rejected at `!` and leaves `R` = {A, G} exactly as `R` := "AG" does; `SetCaseInsensitive` after `a`→C is eslECORRUPT -/
+example :
+    let a := (createCustom (str "ACGT-RYN*~") 4 10).getD G.dna
+    (a.setDegeneracy (ch 'R') (str "AG!")).1 = .einval ∧
+    (a.setDegeneracy (ch 'R') (str "AG!")).2 = (a.setDegeneracy (ch 'R') (str "AG")).2 ∧
+    (a.setDegeneracy (ch 'R') (str "AG")).1 = .ok ∧ (a.setDegeneracy (ch 'R') (str "AG")).2.degenSet 5 = [0, 2] ∧
+    ((a.setEquiv (ch 'a') (ch 'C')).2.setCaseInsensitive).1 = .ecorrupt ∧
+    ((a.setIgnored (str " \t")).digitize (str "A C\tG")) = (.ok, mkDsq [0, 1, 2]) := by decide +kernel
 
 /-! ## degenerate scores and counts (over ℚ: the code as a rational function; IEEE rounding is L0, compared bit-exactly
       against the real code by the correspondence run) -/
